@@ -7,6 +7,7 @@
   the correspondence check (`map_read`, both views, after every step).
 -/
 import XotModel.Lemmas.ForestBasic
+import XotModel.Lemmas.FmapEntry
 
 namespace XotModel.Props
 open XotModel
@@ -28,5 +29,171 @@ theorem C11_remove_absent (f : Forest) (k : Forest.MapKind) (p key : Nat)
 theorem C11_nonelement_panics (f : Forest) (k : Forest.MapKind) (p : Nat) (entry : Value)
     (he : f.isElement p = false) : f.mapInsert k p entry = (f, .panic) := by
   simp [Forest.mapInsert, he]
+
+/-! ## Refinement to an insertion-ordered map
+
+  `Fmap.abs k f e` (Model/FmapSpec.lean) is the attribute / namespace view of `e` as an
+  association list `(key, payload)` in child order; `omInsert` / `omRemove` / `omClear` are the
+  reference ordered map (existing key: value replaced in place; new key: appended at the end).
+  All theorems below hold for every forest satisfying `Forest.Inv` and every live element. -/
+
+open Fmap
+
+/-- `insert(key, value)` (`set_attribute`, `set_namespace`): the view becomes `omInsert`; no
+    panic, no error. -/
+theorem C11_refine_insert (f : Forest) (hi : f.Inv) (k : Forest.MapKind) (e : Nat) (entry : Value)
+    (he : f.isElement e = true) (hm : k.matches entry = true) :
+    abs k (f.mapInsert k e entry).1 e = omInsert (abs k f e) (Forest.entryKey entry) (payloadOf entry) ∧
+    (f.mapInsert k e entry).2 = .ok := by
+  obtain ⟨nm, N, A, S, h⟩ := minv_of_inv f e hi he
+  obtain ⟨hr, hok⟩ := mapInsert_refines h k entry hm
+  exact ⟨hr.abs_same, hok⟩
+
+/-- Updating an existing key keeps every entry node of the view in its position with its
+    handle (`nodes()` is unchanged); a new key is carried by a fresh node placed last. -/
+theorem C11_insert_nodes (f : Forest) (hi : f.Inv) (k : Forest.MapKind) (e : Nat) (entry : Value)
+    (he : f.isElement e = true) (hm : k.matches entry = true) :
+    (∀ n, f.mapGetNode k e (Forest.entryKey entry) = some n →
+      absNodes k (f.mapInsert k e entry).1 e = absNodes k f e) ∧
+    (f.mapGetNode k e (Forest.entryKey entry) = none →
+      absNodes k (f.mapInsert k e entry).1 e = absNodes k f e ++ [f.next]) := by
+  obtain ⟨nm, N, A, S, h⟩ := minv_of_inv f e hi he
+  obtain ⟨s', st, _, _, h1, h2⟩ := mapInsert_step h k entry hm
+  constructor
+  · intro n hn; rw [st.nodes_same, h1 n hn, h.absNodes_eq]
+  · intro hn; rw [st.nodes_same, h2 hn, h.absNodes_eq]
+
+/-- `remove(key)` (`remove_attribute`, `remove_namespace`): the view becomes `omRemove`; the
+    remaining entry nodes keep their relative order and handles. -/
+theorem C11_refine_remove (f : Forest) (hi : f.Inv) (k : Forest.MapKind) (e key : Nat)
+    (he : f.isElement e = true) :
+    abs k (f.mapRemove k e key).1 e = omRemove (abs k f e) key ∧
+    (f.mapRemove k e key).2 = .ok ∧
+    (absNodes k (f.mapRemove k e key).1 e).Sublist (absNodes k f e) := by
+  obtain ⟨nm, N, A, S, h⟩ := minv_of_inv f e hi he
+  obtain ⟨s', st, hok, hmap, hsub⟩ := mapRemove_step h k key
+  refine ⟨?_, hok, ?_⟩
+  · rw [st.abs_same, hmap, h.abs_eq]
+  · rw [st.nodes_same, h.absNodes_eq]; exact hsub
+
+/-- `clear()`: the view becomes empty. -/
+theorem C11_refine_clear (f : Forest) (hi : f.Inv) (k : Forest.MapKind) (e : Nat)
+    (he : f.isElement e = true) :
+    abs k (f.mapClear k e).1 e = omClear (abs k f e) ∧ (f.mapClear k e).2 = .ok := by
+  obtain ⟨nm, N, A, S, h⟩ := minv_of_inv f e hi he
+  obtain ⟨st, hok⟩ := mapClear_step h k
+  exact ⟨by rw [st.abs_same]; rfl, hok⟩
+
+/-- `append_attribute_node` / `append_namespace_node` of a detached (parentless) entry node
+    `nd` with value `v`: the view becomes `omInsert`.  If the key exists, the EXISTING node keeps
+    its place and handle, takes the new value and is the node returned, and `nd` stays where it
+    was (parentless, same value).  Otherwise `nd` itself becomes the last entry and is returned. -/
+theorem C11_refine_insert_node (f : Forest) (hi : f.Inv) (k : Forest.MapKind) (e nd : Nat) (v : Value)
+    (he : f.isElement e = true) (hroot : f.isRoot nd = true) (hval : f.value? nd = some v)
+    (hm : k.matches v = true) :
+    abs k (f.appendEntryNode k e nd).1 e = omInsert (abs k f e) (Forest.entryKey v) (payloadOf v) ∧
+    (f.appendEntryNode k e nd).2.1 = .ok ∧
+    (∀ n, f.mapGetNode k e (Forest.entryKey v) = some n →
+      (f.appendEntryNode k e nd).2.2 = n.handle ∧
+      absNodes k (f.appendEntryNode k e nd).1 e = absNodes k f e ∧
+      HTree.node nd v [] ∈ (f.appendEntryNode k e nd).1.roots) ∧
+    (f.mapGetNode k e (Forest.entryKey v) = none →
+      (f.appendEntryNode k e nd).2.2 = nd ∧
+      absNodes k (f.appendEntryNode k e nd).1 e = absNodes k f e ++ [nd]) := by
+  obtain ⟨nm, N, A, S, h⟩ := minv_of_inv f e hi he
+  have hleaf := leafRoot_of_inv f hi k nd v hroot hval hm
+  obtain ⟨s', roots0, st, hok, hmap, _, h1, h2⟩ := appendEntryNode_step h k nd v hm hleaf
+  refine ⟨by rw [st.abs_same, hmap, h.abs_eq], hok, ?_, ?_⟩
+  · intro n hn
+    obtain ⟨a, b, c, _⟩ := h1 n hn
+    exact ⟨a, by rw [st.nodes_same, b, h.absNodes_eq], c⟩
+  · intro hn
+    obtain ⟨a, b, _⟩ := h2 hn
+    exact ⟨a, by rw [st.nodes_same, b, h.absNodes_eq]⟩
+
+/-- `any_append` of an attribute / namespace node is `append_attribute_node` /
+    `append_namespace_node`, so `C11_refine_insert_node` covers it. -/
+theorem C11_any_append_entry (f : Forest) (k : Forest.MapKind) (e nd : Nat) (v : Value)
+    (hval : f.value? nd = some v) (hm : k.matches v = true) :
+    f.anyAppend e nd = f.appendEntryNode k e nd := anyAppend_entry f k e nd v hval hm
+
+/-- An update of one view does not change the other view (content and nodes). -/
+theorem C11_other_view_untouched (f : Forest) (hi : f.Inv) (k k' : Forest.MapKind) (e : Nat)
+    (he : f.isElement e = true) (hk : k' ≠ k) :
+    (∀ entry, k.matches entry = true →
+      abs k' (f.mapInsert k e entry).1 e = abs k' f e ∧
+      absNodes k' (f.mapInsert k e entry).1 e = absNodes k' f e) ∧
+    (∀ key, abs k' (f.mapRemove k e key).1 e = abs k' f e ∧
+      absNodes k' (f.mapRemove k e key).1 e = absNodes k' f e) ∧
+    (abs k' (f.mapClear k e).1 e = abs k' f e ∧ absNodes k' (f.mapClear k e).1 e = absNodes k' f e) ∧
+    (∀ nd v, f.isRoot nd = true → f.value? nd = some v → k.matches v = true →
+      abs k' (f.appendEntryNode k e nd).1 e = abs k' f e ∧
+      absNodes k' (f.appendEntryNode k e nd).1 e = absNodes k' f e) := by
+  obtain ⟨nm, N, A, S, h⟩ := minv_of_inv f e hi he
+  refine ⟨?_, ?_, ?_, ?_⟩
+  · intro entry hm
+    obtain ⟨s', st, _⟩ := mapInsert_step h k entry hm
+    exact ⟨st.abs_other h hk, st.nodes_other h hk⟩
+  · intro key
+    obtain ⟨s', st, _⟩ := mapRemove_step h k key
+    exact ⟨st.abs_other h hk, st.nodes_other h hk⟩
+  · obtain ⟨st, _⟩ := mapClear_step h k
+    exact ⟨st.abs_other h hk, st.nodes_other h hk⟩
+  · intro nd v hroot hval hm
+    obtain ⟨s', roots0, st, _⟩ :=
+      appendEntryNode_step h k nd v hm (leafRoot_of_inv f hi k nd v hroot hval hm)
+    exact ⟨st.abs_other h hk, st.nodes_other h hk⟩
+
+/-- Frame.  After `insert` / `remove` / `clear` on view `k` of `e`, the forest is the old
+    forest in which only the child list of `e` was replaced (`Fmap.withKids`: every other node,
+    every other tree, every handle as before; `next` may have grown), and within that child
+    list everything that is not an entry of view `k` — the normal children with their subtrees
+    and the other view's nodes — is the same, in the same order. -/
+theorem C11_children_untouched (f : Forest) (hi : f.Inv) (k : Forest.MapKind) (e : Nat)
+    (he : f.isElement e = true) :
+    ∃ nm ks, f.get? e = some (.node e (.element nm) ks) ∧
+    ∀ f', ((∃ entry, k.matches entry = true ∧ f' = (f.mapInsert k e entry).1) ∨
+           (∃ key, f' = (f.mapRemove k e key).1) ∨ f' = (f.mapClear k e).1) →
+      ∃ ks', f' = { f with roots := withKids f.roots e ks', next := f'.next } ∧
+        ks'.filter (fun c => !k.matches c.value) = ks.filter (fun c => !k.matches c.value) := by
+  obtain ⟨nm, N, A, S, h⟩ := minv_of_inv f e hi he
+  refine ⟨nm, _, h.loc.get, ?_⟩
+  have fin : ∀ f' s', Step f f' e nm N A S k f.roots s' →
+      ∃ ks', f' = { f with roots := withKids f.roots e ks', next := f'.next } ∧
+        ks'.filter (fun c => !k.matches c.value) =
+          (N ++ A ++ S).filter (fun c => !k.matches c.value) := by
+    intro f' s' st
+    obtain ⟨ks, ks', hg, hst, hfil⟩ := st.frame h
+    rw [h.loc.get] at hg
+    simp only [Option.some.injEq, HTree.node.injEq, true_and] at hg
+    exact ⟨ks', hst, by rw [hfil, hg]⟩
+  intro f' hf'
+  rcases hf' with ⟨entry, hm, rfl⟩ | ⟨key, rfl⟩ | rfl
+  · obtain ⟨s', st, _⟩ := mapInsert_step h k entry hm
+    exact fin _ s' st
+  · obtain ⟨s', st, _⟩ := mapRemove_step h k key
+    exact fin _ s' st
+  · obtain ⟨st, _⟩ := mapClear_step h k
+    exact fin _ [] st
+
+/-- Frame of the node-style insertion: as above, except that the detached node leaves the
+    parentless trees when it is placed (it stays among them when its key already exists). -/
+theorem C11_children_untouched_node (f : Forest) (hi : f.Inv) (k : Forest.MapKind) (e nd : Nat)
+    (v : Value) (he : f.isElement e = true) (hroot : f.isRoot nd = true)
+    (hval : f.value? nd = some v) (hm : k.matches v = true) :
+    ∃ nm ks ks' roots0, f.get? e = some (.node e (.element nm) ks) ∧
+      (roots0 = f.roots ∨ roots0 = rootsWithout f nd) ∧
+      (f.appendEntryNode k e nd).1 = { f with roots := withKids roots0 e ks' } ∧
+      ks'.filter (fun c => !k.matches c.value) = ks.filter (fun c => !k.matches c.value) := by
+  obtain ⟨nm, N, A, S, h⟩ := minv_of_inv f e hi he
+  have hleaf := leafRoot_of_inv f hi k nd v hroot hval hm
+  obtain ⟨s', roots0, st, _, _, hnext, h1, h2⟩ := appendEntryNode_step h k nd v hm hleaf
+  obtain ⟨ks, ks', hg, hst, hfil⟩ := st.frame h
+  refine ⟨nm, ks, ks', roots0, hg, ?_, ?_, hfil⟩
+  · cases hn : f.mapGetNode k e (Forest.entryKey v) with
+    | none => exact Or.inr (h2 hn).2.2
+    | some n => exact Or.inl (h1 n hn).2.2.2
+  · rw [hnext] at hst
+    exact hst
 
 end XotModel.Props
